@@ -151,6 +151,11 @@ impl OovProviderPlugin for RegexOovProvider {
                     };
                 }
 
+                if m.end() == 0 {
+                    // an empty match is not a word
+                    return Ok(0);
+                }
+
                 let byte_offset = input_text.to_curr_byte_idx(offset);
                 let match_start = offset;
                 let match_end = input_text.ch_idx(byte_offset + m.end());
